@@ -37,6 +37,7 @@ type backendResp struct {
 	Split        int  // 0 one write, 1 per frame, 2 random pieces
 	WrongCT      string
 	Cut          int // >0: drop that many bytes from the end of the body
+	BareBody     int // variations of the body of a bare HTTP failure
 }
 
 func percentEncode(s string) string {
@@ -219,6 +220,16 @@ func (b backendResp) script(r *rng, et *endTables) []action {
 		if b.BareStatus != 0 {
 			frames = [][]byte{[]byte("upstream failure")}
 			ct = "text/plain"
+			switch b.BareBody {
+			case 1: // no body at all
+				frames = nil
+			case 2: // JSON that is not a Connect error
+				frames = [][]byte{[]byte(`{"status":"down"}`)}
+				ct = "application/json"
+			case 3:
+				frames = [][]byte{[]byte(`<html>Bad Gateway</html>`)}
+				ct = "text/html"
+			}
 		} else if b.ErrCode != 0 {
 			status = connectStatusOf[b.ErrCode]
 			if status == 0 {
@@ -446,6 +457,7 @@ func init() {
 				tag = "error-oddcode"
 			case 4:
 				b.BareStatus = pick(r, []int{400, 401, 403, 404, 429, 500, 502, 503, 504, 418, 204, 301})
+				b.BareBody = r.intn(4)
 				tag = "bare-http"
 			}
 			switch r.intn(12) {
